@@ -425,6 +425,10 @@ def compile_level(ctx):
             glyphs.append({"name": "Ohm.alt", "width": 500, "unicodes": [], "contours": [[(0, 0, "line"), (121, 0, "line"), (60, 90, "line")]]})
         if not any(g["name"] == "a" for g in glyphs):
             glyphs.append({"name": "a", "width": 500, "unicodes": [0x61], "contours": [[(0, 0, "line"), (9, 0, "line"), (5, 9, "line")]]})
+        if i % 2 == 1:
+            # the customary NULL glyph: U+0000 is a code point like any other (uni0000), and so is its suffixed variant
+            glyphs.append({"name": "NULL", "width": 0, "unicodes": [0], "contours": []})
+            glyphs.append({"name": "NULL.alt", "width": 10, "unicodes": [], "contours": []})
         desc = {"glyphs": glyphs, "lib": {}, "kerning": {}, "features": ""}
         names = [g["name"] for g in glyphs]
         # some layout so that GSUB/GPOS/GDEF exist and refer to glyph indices
@@ -547,5 +551,7 @@ def compile_level(ctx):
                 want = ("u%04X" if u > 0xFFFF else "uni%04X") % u
                 if not final[idx].startswith(want):
                     ctx.spec_failure(case, "glyph %r (U+%04X) is named %r, expected %s" % (n, u, final[idx], want))
+            elif n == "NULL.alt" and not psn and not final[idx].startswith("uni0000.alt"):
+                ctx.spec_failure(case, "glyph 'NULL.alt' is named %r, expected uni0000.alt (U+0000 is the base glyph's code point)" % final[idx])
             elif n == "Ohm.alt" and not psn and not final[idx].startswith("uni2126.alt"):
                 ctx.spec_failure(case, "glyph 'Ohm.alt' is named %r, expected uni2126.alt (suffix kept on the base glyph's primary code point)" % final[idx])
